@@ -269,10 +269,11 @@ class _SymClock:
         return getattr(time, n)
 
 
-def h_tid_monotonic(c0: int, c1: int, c2: int, c3: int, c4: int, storage: str, reopen: bool) -> None:
+def h_tid_monotonic(c0: int, c1: int, c2: int, c3: int, c4: int, storage: str, reopen: bool, form: int = 0) -> None:
     """Consecutive tpc_begin()s under arbitrary clock readings choose strictly increasing tids, all
     later than the last committed one - also right after a close and reopen (c0 is the clock reading
-    the reopening storage sees)."""
+    the reopening storage sees).  form: how the caller spells "no id given" - tpc_begin(t), (t, None),
+    (t, None, ' ') or (t, tid=None): the documented signature has tid=None as its default."""
     for c in (c0, c1, c2, c3, c4):
         assume(0 <= c < 2 ** 63)
     import ZODB.BaseStorage as BS
@@ -334,9 +335,17 @@ def h_tid_monotonic(c0: int, c1: int, c2: int, c3: int, c4: int, storage: str, r
             assume(c0 == 0)
         clk.vals = [c1, c2, c3, c4]
         prev = last
+        fk = choose(form, 4)
         for i in range(4):
             t = T.meta()
-            s.tpc_begin(t)
+            if fk == 0:
+                s.tpc_begin(t)
+            elif fk == 1:
+                s.tpc_begin(t, None)
+            elif fk == 2:
+                s.tpc_begin(t, None, ' ')
+            else:
+                s.tpc_begin(t, tid=None)
             if storage == 'demo':
                 cur = s.changes._tid.n
             else:
@@ -450,11 +459,11 @@ HARNESSES = [
             quick=dict(timeout=120, shards=shards(template=['T1'])), thorough=dict(timeout=300, shards=shards(template=['T1', 'T2']))),
     Harness('tid_monotonic', h_tid_monotonic,
             decides='transaction ids strictly increase whatever the clock returns (stalls, steps back)',
-            symbolic='the clock reading at reopen and 4 consecutive clock readings (free 63-bit integers)',
+            symbolic='the clock reading at reopen and 4 consecutive clock readings (free 63-bit integers); for the demo storage the spelling of the call (4 forms)',
             bounds='4 consecutive tpc_begin after history T1, with and without close+reopen before', oracle='strict increase, above the last committed tid',
             code=['BaseStorage.tpc_begin', 'MappingStorage.tpc_begin', 'FileStorage.__init__ (tid floor)', 'utils.newTid'],
-            quick=dict(timeout=80, shards=[dict(storage='file', reopen=False), dict(storage='file', reopen=True), dict(storage='mapping', reopen=False), dict(storage='mapping_packed', reopen=False), dict(storage='demo', reopen=False)]),
-            thorough=dict(timeout=300, shards=[dict(storage='file', reopen=False), dict(storage='file', reopen=True), dict(storage='mapping', reopen=False), dict(storage='mapping_packed', reopen=False), dict(storage='demo', reopen=False)])),
+            quick=dict(timeout=80, shards=[dict(storage='file', reopen=False, form=0), dict(storage='file', reopen=True, form=0), dict(storage='mapping', reopen=False, form=0), dict(storage='mapping_packed', reopen=False, form=0), dict(storage='demo', reopen=False, form=0), dict(storage='demo', reopen=False)]),
+            thorough=dict(timeout=300, shards=[dict(storage='file', reopen=False, form=0), dict(storage='file', reopen=True, form=0), dict(storage='mapping', reopen=False, form=0), dict(storage='mapping_packed', reopen=False, form=0), dict(storage='demo', reopen=False, form=0), dict(storage='demo', reopen=False)])),
 ]
 
 MANIFEST = dict(
